@@ -5,6 +5,7 @@ from . import numeric
 def run(ctx, rep):
     numeric.r08a(ctx, rep)
     numeric.r08c(ctx, rep)
+    numeric.r08d(ctx, rep)
     numeric.r09c_iszero(ctx, rep) if hasattr(numeric, "r09c_iszero") else None
     rep.not_decided += ["numerical results (a checked operation whose fallback computes the wrong value)",
                         "the 2^-50 error bound of inexact fallbacks", "representation independence of results",
